@@ -21,11 +21,12 @@ import numpy as np
 
 from harness.core import MachineryError, REPO, b2f, f2b, flist, ilist
 
-MODEL_MODULES = ['SkyllhModel.Model.Rng']
+MODEL_MODULES = ['SkyllhModel.Model.Rng', 'SkyllhModel.Model.RngDeep']
 
 # recorded values of the constants read from the source (used when extraction fails)
 _RECORDED = dict(sideRight=True, seedStart=1, seedSearchRepaired=True, workerSeedLow=0,
-                 workerSeedHigh=2 ** 32, minimizerSeedFromRss=True, minimizerRssForwarded=True)
+                 workerSeedHigh=2 ** 32, minimizerSeedFromRss=True, minimizerRssForwarded=True,
+                 probSumTestRejectsNaN=True)
 _GEN = {}
 
 
@@ -647,7 +648,7 @@ def _mk_ana(c):
         data-dependent number of restarts and returns the initials it is given).
     The analysis object is cached on purpose: the oracles exercise *used* objects.  A failure to build the
     fixture is a machinery error."""
-    key = (c['maxev'], c['thr'], c['maxrep'], c['npar'], c['lo'], c['hi'])
+    key = (c['maxev'], c['thr'], c['maxrep'], c['npar'], c['lo'], c['hi'], c.get('need_mod'), c.get('norep'), c.get('delta'))
     if key in _ANA:
         return _ANA[key]
     try:
@@ -694,9 +695,9 @@ def _build_ana(c):
                 # first attempt of a new trial: how many restarts this trial's data asks for
                 x = np.asarray(tdm.get_data('x'))
                 self.calls = 0
-                self.needed = int(np.count_nonzero(x < c['thr'])) % (c['maxrep'] + 1)
+                self.needed = int(np.count_nonzero(x < c['thr'])) % (c.get('need_mod') or (c['maxrep'] + 1))
             self.calls += 1
-            return (np.array(initials, dtype=np.float64), 0.0, {'calls': self.calls})
+            return (np.array(initials, dtype=np.float64) + (c.get('delta') or 0.0), 0.0, {'calls': self.calls})
 
         def get_niter(self, status):
             return status['calls']
@@ -705,7 +706,8 @@ def _build_ana(c):
             return status['calls'] > self.needed
 
         def is_repeatable(self, status):
-            return True
+            # scripted: not repeatable from attempt number `norep` on (0/None = always repeatable)
+            return not c.get('norep') or status['calls'] < c['norep']
 
     def events(x):
         return DataFieldRecordArray({'eid': np.minimum((x * E).astype(np.int64), E - 1), 'x': x}, copy=True)
@@ -746,7 +748,8 @@ def _build_ana(c):
                 st = kwargs['minimizer_status_dict'] = {}
             rec = super().do_trial_with_given_pseudo_data(*args, **kwargs)
             out = np.zeros((1,), dtype=[('seed', np.int64), ('n_ev', np.int64), ('data', np.float64, (K,)),
-                                        ('n_reps', np.int64), ('fit', np.float64, (c['npar'],))])
+                                        ('n_reps', np.int64), ('fit', np.float64, (c['npar'],)),
+                                        ('xmin', np.float64, (c['npar'],))])
             out['seed'] = rec['seed']
             out['n_ev'] = len(x)
             d = np.zeros(K)
@@ -754,8 +757,9 @@ def _build_ana(c):
             out['data'][0] = d
             reps = st['skyllh_minimizer_n_reps']
             out['n_reps'] = reps
+            out['xmin'][0] = [rec[nm][0] for nm in names]
             if reps > 0:
-                out['fit'][0] = [rec[nm][0] for nm in names]
+                out['fit'][0] = out['xmin'][0]
             return out
 
     ana = Syn(shg_mgr=shg_mgr, pmm=pmm, test_statistic=WilksTestStatistic(), bkg_generator_cls=Bkg,
@@ -1171,6 +1175,343 @@ def o_rss_history(ctx, case):
 
 
 # ------------------------------------------------------------------------------------------
+# deepening round: trials that may raise, RandomChoice as an object (validation), get_ncpu, labels
+
+def _rowsE(rec):
+    out = []
+    for r in rec:
+        ne = int(r['n_ev'])
+        out.append('%d;%d;%s;%d;%s' % (int(r['seed']), ne, flist(r['data'][:ne]), int(r['n_reps']), flist(r['xmin'])))
+    return '|'.join(out) if out else '-'
+
+
+def _cfgE(case):
+    c = dict(case['cfg'])
+    c.update(need_mod=case['need_mod'], norep=case['norep'], delta=case['delta'])
+    return c
+
+
+def _trialsE_req(case):
+    c = case['cfg']
+    seed, pre, n, nsig, mini = case['seed'], case['pre'], case['n'], case['nsig'], case.get('mini')
+    B = 2 * pre + 2 * n * (1 + c['maxev'] + nsig) + 8
+    per = 2 * n * c['npar'] * c['maxrep']
+    if mini == 'same':
+        B += per
+    elif mini:
+        B = max(B, 2 * mini['pre'] + per + 8)
+    B = max(B, 2 * c['npar'] * c['maxrep'] + 8)
+    seeds = [seed] + ([mini['seed']] if mini and mini != 'same' else [])
+    tabs = ';'.join('%d=%s' % (sd, ','.join(str(int(x)) for x in _words(sd, B))) for sd in dict.fromkeys(seeds))
+    return 'trialsE %d %d %d %s %d %d %s %d %d %s %s %d %d %s %s' % (
+        n, seed, 2 * pre, 'same' if mini == 'same' else ('%d:%d' % (mini['seed'], 2 * mini['pre'])) if mini else '-',
+        c['maxev'], nsig, f2b(c['thr']), c['maxrep'], c['npar'], f2b(c['lo']), f2b(c['hi']),
+        case['need_mod'], case['norep'], f2b(case['delta']), tabs)
+
+
+def _trialsE_impl(case):
+    """(rows | 'RAISED', data service, minimiser service): the services are inspected also after a raise"""
+    import warnings
+    ana = _mk_ana(_cfgE(case))
+    rss = _svc(case['seed'], case['pre'])
+    mini = case.get('mini')
+    mrss = rss if mini == 'same' else _svc(mini['seed'], mini['pre']) if mini else None
+    try:
+        with _Watchdog(120), warnings.catch_warnings():
+            warnings.simplefilter('ignore')
+            rec = ana.do_trials(rss, case['n'], ncpu=1, mean_n_sig=case['nsig'], minimizer_rss=mrss)
+    except MachineryError:
+        raise
+    except Exception as e:  # noqa
+        return 'RAISED:' + type(e).__name__, rss, (None if mini == 'same' else mrss)
+    return _rowsE(rec), rss, (None if mini == 'same' else mrss)
+
+
+def _trialsE_compare(case, impl, model, count=None):
+    rows, rss, mrss = impl
+    parts = dict(x.split(':', 1) for x in model.split(' '))
+    if count:
+        count('branch:trialsSeqE:' + ('raise' if parts['err'] == '1' else 'no-raise'))
+        if parts['err'] == '1':
+            count('branch:trialsSeqE:raise-at-' + ('first-trial' if parts['rows'] == '-' else 'later-trial'))
+            count('branch:restartLoop:gives-up-' + ('maxrep-or-not-repeatable' if case['norep'] else 'maxrep'))
+        for r in ([] if parts['rows'] == '-' else parts['rows'].split('|')):
+            f = r.split(';')
+            count('branch:restartLoop:converged-' + ('at-first-attempt' if f[3] == '0' else 'after-restarts'))
+            xs = [b2f(t) for t in f[4].split(',')] if f[4] != '-' else []
+            for x in xs:
+                count('branch:clipOne:' + ('at-lower' if x == case['cfg']['lo'] else 'at-upper' if x == case['cfg']['hi'] else 'inside'))
+    if parts['err'] == '1':
+        if not rows.startswith('RAISED:'):
+            return 'model: a trial raises (minimiser does not converge), the implementation returned rows %s' % rows[:200]
+    else:
+        if rows.startswith('RAISED:'):
+            return 'implementation raised %s, model returns rows %s' % (rows[7:], parts['rows'][:200])
+        if rows != parts['rows']:
+            a, b = rows.split('|'), parts['rows'].split('|')
+            for k, (x, y) in enumerate(itertools.zip_longest(a, b)):
+                if x != y:
+                    return 'trial %d: implementation row (seed;n_ev;data;n_reps;xmin) %s, model %s' % (k, str(x)[:300], str(y)[:300])
+    sd, p = parts['rss'].split(':')
+    if rss.seed != int(sd) or not _same_state(rss.random.get_state(), _state_at(int(sd), int(p))):
+        return ('data service after %s: model says seed %s at word %s, the implementation is elsewhere'
+                % ('the raise' if parts['err'] == '1' else 'the trials', sd, p))
+    if mrss is not None:
+        sd, p = parts['m'].split(':')
+        if not _same_state(mrss.random.get_state(), _state_at(int(sd), int(p))):
+            return ('minimiser service after %s: model says seed %s at word %s, the implementation is elsewhere'
+                    % ('the raise' if parts['err'] == '1' else 'the trials', sd, p))
+    return None
+
+
+def o_error_poststate(ctx, case):
+    """a raising trial: what it consumed stays consumed — a retry with the same data service continues the data
+    stream (same data as the trial after the raising one would have got), other services are untouched, and the
+    data of the trials completed before the raise is the data of a run whose minimiser never raises"""
+    import warnings
+    c = _cfgE(case)
+    calm = dict(c, need_mod=c['maxrep'] + 1, norep=0, delta=0.0)
+    n, seed, nsig = case['n'], case['seed'], case['nsig']
+    try:
+        ref, _, _ = _run_trials(calm, seed, case['pre'], n + 1, 1, nsig, None)
+    except MachineryError:
+        raise
+    except Exception as e:  # noqa
+        return 'reference run raised %s: %s' % (type(e).__name__, e)
+    ana = _mk_ana(c)
+    rss = _svc(seed, case['pre'])
+    other = _svc(seed, 3)
+    st_other = other.random.get_state()
+    done = 0
+    with warnings.catch_warnings():
+        warnings.simplefilter('ignore')
+        for k in range(n + 1):
+            try:
+                with _Watchdog(120):
+                    r = ana.do_trial(rss, mean_n_sig=nsig)
+            except MachineryError:
+                raise
+            except ValueError:
+                r = None
+            except Exception as e:  # noqa
+                return 'do_trial raised %s: %s' % (type(e).__name__, e)
+            if r is not None and (int(r['n_ev'][0]) != int(ref['n_ev'][k]) or r['data'][0].tobytes() != ref['data'][k].tobytes()):
+                return ('do_trial number %d on one data service (seed %d), after %d earlier trials of which some raised in the minimiser, '
+                        'generated other pseudo data than trial %d of a run whose minimiser never raises (cfg %r)' % (k, seed, k, k, c))
+            done += 1
+    if not _same_state(other.random.get_state(), st_other):
+        return 'a service not passed to do_trial changed'
+    return None
+
+
+def _atol(dtype):
+    return float(max(np.sqrt(np.finfo(np.float64).eps), np.sqrt(np.finfo(dtype).eps)))
+
+
+def _cobj_args(case):
+    """(items argument, probabilities argument, codes, items_form, p_ndim) from the JSON-able case"""
+    p = np.array([unj(x) for x in case['p']], dtype=np.float64).astype(case.get('dtype', 'float64'))
+    codes = np.array(case['codes'], dtype=np.int64)
+    items = _item_values(case.get('ikind', 'offset'), codes)
+    lay = case.get('layout', 'plain')
+    if lay == 'strided':           # non-contiguous views of larger arrays
+        bp = np.zeros(2 * len(p) + 1, dtype=p.dtype)
+        bp[1::2] = p
+        p = bp[1::2]
+        bi = np.zeros(2 * len(items) + 1, dtype=items.dtype)
+        bi[::2][:len(items)] = items
+        items = bi[::2][:len(items)]
+    elif lay == 'readonly':
+        p.setflags(write=False)
+        items.setflags(write=False)
+    elif lay == 'reversed':
+        p = p[::-1][::-1]
+        items = items[::-1][::-1]
+    form, pnd = case.get('form', 1), case.get('pndim', 1)
+    if form == 'na':
+        items = items.tolist()
+    elif form == 2:
+        items = items.reshape((1, -1))
+    elif form == 0:
+        items = np.array(7)
+    if pnd == 2:
+        p = p.reshape((1, -1))
+    return items, p, codes, form, pnd
+
+
+def unj(x):
+    return float('nan') if x == 'nan' else float('inf') if x == 'inf' else float('-inf') if x == '-inf' else float(x)
+
+
+def _cobj_req(case):
+    items, p, codes, form, pnd = _cobj_args(case)
+    with np.errstate(all='ignore'):
+        s = float(np.sum(p))
+    return 'cobj %d %d %s %s %d %s %s %s %s' % (
+        1 if _gen()['sideRight'] else 0, 1 if _gen()['probSumTestRejectsNaN'] else 0, f2b(_atol(p.dtype)),
+        'na' if form == 'na' else str(form), pnd, f2b(s), ilist(codes), flist(np.asarray(p, dtype=np.float64).ravel()),
+        flist(case['us']))
+
+
+def _cobj_impl(case):
+    import warnings
+    from skyllh.core.random import RandomChoice
+    items, p, codes, form, pnd = _cobj_args(case)
+    with warnings.catch_warnings(), np.errstate(all='ignore'):
+        warnings.simplefilter('ignore')
+        try:
+            rc = RandomChoice(items=items, probabilities=p)
+        except Exception as e:  # noqa
+            return 'REJ:' + type(e).__name__
+        size = case.get('size_form', 'int')
+        n = len(case['us'])
+        size = np.int64(n) if size == 'np' else n
+        try:
+            res = rc(rss=_StubRSS(case['us']), size=size)
+        except MachineryError:
+            raise
+        except Exception as e:  # noqa
+            return 'EXC:' + type(e).__name__
+    return np.asarray(res)
+
+
+def _cobj_compare(case, impl, model, count=None):
+    if count:
+        count('branch:construct:' + (model if model.startswith('REJ') else 'accepted'))
+    if model.startswith('REJ:'):
+        if isinstance(impl, str) and impl.startswith('REJ:'):
+            if count:
+                count('diag:rejection-class-%s' % ('as-modelled' if impl[4:].lower().startswith(model[4:]) else 'other'))
+            return None
+        return 'model: the constructor rejects (%s), the implementation accepted the arguments' % model
+    if isinstance(impl, str) and impl.startswith('REJ:'):
+        return 'implementation rejected the arguments (%s), the model accepts them' % impl[4:]
+    m = model[3:]
+    if isinstance(impl, str):
+        return None if m == 'ERR' else 'implementation raised %s in the call, model returns %s' % (impl[4:], m[:100])
+    if m == 'ERR':
+        return 'model: the call raises, implementation returned %r' % (impl[:8].tolist(),)
+    want = _item_values(case.get('ikind', 'offset'), [int(t) for t in m.split(',')] if m != '-' else [])
+    if not _arr_same(impl, want):
+        return 'implementation returns %r, the model %r' % (impl[:8].tolist(), want[:8].tolist())
+    return None
+
+
+def o_choice_nan(ctx, case):
+    """probabilities containing NaN / inf: either the constructor refuses them, or every returned item has a
+    strictly positive probability"""
+    import warnings
+    from skyllh.core.random import RandomChoice
+    p = np.array([unj(x) for x in case['p']], dtype=case.get('dtype', 'float64'))
+    with warnings.catch_warnings(), np.errstate(all='ignore'):
+        warnings.simplefilter('ignore')
+        try:
+            rc = RandomChoice(items=np.arange(len(p)) + 17, probabilities=p)
+        except Exception:  # noqa
+            return None
+        try:
+            res = np.asarray(rc(rss=_StubRSS(case['us']), size=len(case['us'])))
+        except MachineryError:
+            raise
+        except Exception as e:  # noqa
+            return 'RandomChoice accepted the probabilities %r and the call raised %s: %s' % (case['p'], type(e).__name__, e)
+    for u, it in zip(case['us'], res):
+        i = int(it) - 17
+        if not (0 <= i < len(p)) or not p[i] > 0:
+            return ('RandomChoice accepted the probabilities %r (not a probability vector) and returns item %d of probability %r for the '
+                    'uniform deviate %r' % (case['p'], i, float(p[i]) if 0 <= i < len(p) else None, u))
+    return None
+
+
+def _ncpu_impl(case):
+    from skyllh.core.config import Config
+    from skyllh.core.multiproc import get_ncpu
+    cfg = Config()
+    cfg['multiproc']['ncpu'] = case['cfg']
+    try:
+        return 'ok:%d' % get_ncpu(cfg, case['loc'])
+    except Exception:  # noqa
+        return 'ERR'
+
+
+def _ncpu_req(case):
+    o = lambda v: '-' if v is None else str(v)   # noqa
+    return 'ncpu %s %s' % (o(case['cfg']), o(case['loc']))
+
+
+def _ncpu_compare(case, impl, model, count=None):
+    if count:
+        count('branch:getNcpu:' + ('raises' if model.startswith('ERR') else 'local' if case['loc'] is not None else
+                                   'config' if case['cfg'] is not None else 'default'))
+    if (model.startswith('ERR')) != (impl == 'ERR') or (not model.startswith('ERR') and impl != model):
+        return 'get_ncpu(cfg ncpu=%r, local_ncpu=%r): implementation %s, model %s' % (case['cfg'], case['loc'], impl, model)
+    return None
+
+
+def _labels_run(case):
+    """labels of the rows an extension appends (file seeds, service seed, prior draws, ncpu) with the synthetic analysis"""
+    from skyllh.core.utils.analysis import extend_trial_data_file
+    c = case['cfg']
+    ana = _mk_ana(c)
+    rec0, _, _ = _run_trials(c, 0, 0, 1, 1, 0, None)
+    td = np.zeros(len(case['file']), dtype=rec0.dtype)
+    td['seed'] = case['file']
+    rss = _svc(case['cur'], case['pre'])
+    with _Watchdog(120):
+        out = extend_trial_data_file(ana, rss, case['n'], td, ncpu=case['ncpu'])
+    return list(dict.fromkeys(int(x) for x in out['seed'][len(td):])), rss
+
+
+def _labels_req(case):
+    cand = sorted(set(range(_gen()['seedStart'], _gen()['seedStart'] + len(case['file']) + 2)) | {case['cur']})
+    tabs = ';'.join('%d=%s' % (sd, ','.join(str(int(x)) for x in _words(sd, 2 * case['pre'] + case['ncpu'] + 2))) for sd in cand)
+    return 'labels %d %s %d %d %d %s' % (_gen()['seedStart'], ilist(case['file']), case['cur'], 2 * case['pre'], case['ncpu'], tabs)
+
+
+def _labels_impl(case):
+    try:
+        return ilist(_labels_run(case)[0])
+    except MachineryError:
+        raise
+    except Exception as e:  # noqa
+        return 'EXC:' + type(e).__name__
+
+
+def _labels_compare(case, impl, model, count=None):
+    if count:
+        count('branch:extendLabels:' + ('reseeded' if case['cur'] in case['file'] else 'continues-at-position'))
+        count('branch:extendLabels:' + ('one-process' if case['ncpu'] <= 1 else 'several-processes'))
+    if impl != model:
+        return ('extension of a file with seeds %r by service seed %d (%d prior draws), ncpu=%d: the new rows carry the seeds %s, model %s'
+                % (case['file'], case['cur'], case['pre'], case['ncpu'], impl, model))
+    return None
+
+
+def o_extend_labels(ctx, case):
+    """every seed label of the appended rows is new to the file (the property read literally, several processes)"""
+    try:
+        labels, rss = _labels_run(case)
+    except MachineryError:
+        raise
+    except Exception as e:  # noqa
+        return 'extend_trial_data_file raised %s: %s' % (type(e).__name__, e)
+    bad = [x for x in labels if x in set(case['file'])]
+    if bad:
+        return ('extend_trial_data_file(ncpu=%d): file seeds %r, service seed %d -> the appended rows carry the seeds %r; %r already occur in '
+                'the file (worker seeds are drawn from the new seed\'s stream and never compared with the file)'
+                % (case['ncpu'], case['file'], case['cur'], labels, bad))
+    return None
+
+
+_NEW = {
+    'trialsE': (_trialsE_req, _trialsE_impl, _trialsE_compare),
+    'cobj': (_cobj_req, _cobj_impl, _cobj_compare),
+    'ncpu': (_ncpu_req, _ncpu_impl, _ncpu_compare),
+    'labels': (_labels_req, _labels_impl, _labels_compare),
+}
+
+
+# ------------------------------------------------------------------------------------------
 # correspondence as a replayable oracle
 
 def o_corr(ctx, case):
@@ -1189,6 +1530,9 @@ def o_corr(ctx, case):
     if k == 'trials':
         impl, rss, mrss = _trials_impl(case)
         return _trials_compare(case, impl, rss, mrss, ctx.driver('C08', [_trials_req(case)])[0])
+    if k in _NEW:
+        req, impl, cmp = _NEW[k]
+        return cmp(case, impl(case), ctx.driver('C08', [req(case)])[0])
     raise ValueError(k)
 
 
@@ -1233,6 +1577,7 @@ ORACLES = {
     'repro': o_repro, 'nonint': o_nonint, 'fresh_min': o_fresh_min, 'workers': o_workers, 'times': o_times,
     'time_history': o_time_history, 'choice_history': o_choice_history, 'rss_history': o_rss_history,
     'seed_shared': o_seed_shared, 'extend_real': o_extend_real,
+    'error_poststate': o_error_poststate, 'choice_nan': o_choice_nan, 'extend_labels': o_extend_labels,
     'corr': o_corr,
 }
 
@@ -1243,6 +1588,8 @@ _SIG = {
     'workers': 'C08/parallelize/worker-seeds-', 'times': 'C08/draw_ontimes/',
     'time_history': 'C08/draw_ontimes/history-', 'choice_history': 'C08/RandomChoice.__call__/history-',
     'rss_history': 'C08/RandomStateService/history-',
+    'error_poststate': 'C08/do_trial/raise-poststate-', 'choice_nan': 'C08/RandomChoice.__init__/accepts-',
+    'extend_labels': 'C08/extend_trial_data_file/worker-label-',
     'seed_shared': 'C08/extend_trial_data_file/shared-service-', 'extend_real': 'C08/extend_trial_data_file/real-analysis-',
 }
 
@@ -1536,6 +1883,9 @@ def run(ctx):  # noqa: C901
         elif k in ('hist', 'histshared'):
             reqs.append(_hist_req(c))
             impls.append((None,))
+        elif k in _NEW:
+            reqs.append(_NEW[k][0](c))
+            impls.append((_NEW[k][1](c),))
         else:
             reqs.append(_trials_req(c))
             impls.append(_trials_impl(c))
@@ -1551,6 +1901,8 @@ def run(ctx):  # noqa: C901
             d = _seed_compare(c, i[0], dict(x.split(':') for x in m.split(' ')))
         elif k in ('hist', 'histshared'):
             d = _hist_compare(c, m)
+        elif k in _NEW:
+            d = _NEW[k][2](c, i[0], m, ctx.count)
         else:
             d = _trials_compare(c, i[0], i[1], i[2], m)
         if d:
